@@ -410,6 +410,25 @@ def run_shard(desc):
         sk, (nb, neg) = sess(total + desc['shard'])
         body = rw.enc_open_body(65001, 90, '10.0.0.2', caps, extended=True)
         run_one(res, sensor, 1, body, nb, neg, 'unusual:open-params-extended', sk, must_decode=True)
+    # ---- (7) OPEN cut short inside its optional parameters, the length fields rewritten to match what is left (so the cut
+    # reaches the parameter / capability walkers instead of the outer length check), in both encodings: every offset
+    caps = [rw.cap_mp(1, 1), rw.cap_mp(2, 1), rw.cap_asn4(65001), (2, b''), rw.cap_addpath([(1, 1, 3)]), rw.cap_hostname(b'host', b'dom'), (200, bytes(20))]
+    ncut = 0
+    for extended in (False, True):
+        for one_param in (False, True):
+            full = rw.enc_params(list(caps), extended, one_param)
+            head = 4 if extended else 1  # length octet, or 255 255 + two length octets
+            params = full[head:]
+            for c in range(len(params)):
+                if (c + desc['shard']) % 4:
+                    continue
+                left = params[:c]
+                hdr = struct.pack('!BBH', 255, 255, len(left)) if extended else bytes([len(left)])
+                body = struct.pack('!BHH', 4, 65001, 90) + bytes([10, 0, 0, 2]) + hdr + left
+                sk, (nb, neg) = sess(c)
+                run_one(res, sensor, 1, body, nb, neg, 'cut-open', sk, must_decode=False, wit_extra={'cut': c, 'extended': extended, 'one_param': one_param})
+                ncut += 1
+    res.extra['open_cuts'] = ncut
     res.sample({'K_steps_per_byte': K, 'sessions': sorted(built)}, limit=1)
     if desc.get('loud'):
         from exabgp.logger import log
